@@ -148,6 +148,15 @@ def coreStep (E : Env) (L : Layouts) (C : Core) : NOp → Core × Out
     let r := cFind E L C table raise ensure
     (r.1, .findR r.2)
 
+/-- `add_table(..., match_depth=False)`: the nesting check — and the `depth()` call in it — is skipped -/
+def coreAddNoCheck (E : Env) (L : Layouts) (C : Core) (nt : List Ident) (ncols : Cols) : Core × Out :=
+  match (cFind E L C nt false false).2 with
+  | .err e => ((cFind E L C nt false false).1, .err e)
+  | fr =>
+    if earlyReturn fr ncols then ((cFind E L C nt false false).1, .unit) else
+    (setCore (cFind E L C nt false false).1 (nt.map Ident.name) ncols
+      (evict L.evict (cFind E L C nt false false).1.findCache nt), .unit)
+
 /-! ### arguments as the API receives them, and the cached normalisation phase -/
 
 /-- a column argument: a `str` (parsed by `parse_identifier`) or an `exp.Identifier` / `exp.Column.this` -/
@@ -329,5 +338,33 @@ def fInit (E : Env) (L : Layouts) (raw : Tree) (normalize : Bool) : Except Err F
     | .ok (names, m) => .ok ⟨coreOfMapping m, names, []⟩
     | .error e => .error e
   else .ok ⟨coreOfMapping raw, [], []⟩
+
+
+/-! ### more than one schema: `copy()`, `from_mapping_schema`, `empty` -/
+
+/-- `MappingSchema.copy()` / `MappingSchema.from_mapping_schema(s)`: a NEW schema is CONSTRUCTED from the current
+    mapping with the same configuration — the constructor runs again (and re-normalises when `normalize` is on:
+    a key that came from a quoted identifier is now parsed as an unquoted one).  Nothing of the old caches is kept. -/
+def fCopy (E : Env) (L : Layouts) (F : FSt) (normalize : Bool) : Except Err FSt :=
+  fInit E L F.core.mapping normalize
+
+/-- `Schema.empty` -/
+def fEmpty (F : FSt) : Bool := F.core.mapping.isEmptyDict
+
+/-- several live schemas; every call addresses one of them -/
+abbrev World := List FSt
+
+def wStep (E : Env) (L : Layouts) (W : World) (i : Nat) (op : FOp) : World × Option Out :=
+  match W[i]? with
+  | some F => (W.set i (fStep E L F op).1, some (fStep E L F op).2)
+  | none => (W, none)
+
+def wCopy (E : Env) (L : Layouts) (W : World) (i : Nat) (normalize : Bool) : World × Option Err :=
+  match W[i]? with
+  | some F =>
+    match fCopy E L F normalize with
+    | .ok F' => (W ++ [F'], none)
+    | .error e => (W, some e)
+  | none => (W, some .internal)
 
 end SqlglotModel.Schema
